@@ -141,6 +141,9 @@ def replay(r):
         return replay_backend_op(r)
     skel = meta.get("skeleton")
     if skel is None:
-        return None
+        # tier P obligations (appliers, ParamViewer.get, expected_data for any shapes) are shared with C01 and replayed there:
+        # curated skeletons, unbatched and with batch rows, with and without clipping
+        from .C01_rates import replay as replay_c01
+        return replay_c01(r)
     from .hf_native import native_compare
     return native_compare(skel, what=meta.get("what", "expected"), batch=meta.get("batch", 2))
